@@ -1230,11 +1230,13 @@ func defineStringExpression() {
 
 					values = append(values, value)
 
-					// parser already points to next token
-					curToken = p.current
-
-					// safely call next because this should always be a string
-					p.next()
+					// The interpolation must be followed by the next part of the string literal.
+					// This is not the case when string templates are nested,
+					// as the lexer only continues the string literal after the outermost interpolation.
+					curToken, err = p.mustOne(lexer.TokenString)
+					if err != nil {
+						return nil, err
+					}
 
 					missingEnd = true
 				} else {
